@@ -182,6 +182,9 @@ package util
 //@   modifies nothing
 //@   panics never
 
+// uriOf: the connection URI of an address/port pair (what GetURI computes)
+//@ spec uriOf(address string, port int, tls bool) string = ite(contains(address, "http://") || contains(address, "https://"), address, ite(address == "" || port <= 0, "", ite(tls, "https://" + address + ":" + itoa(port), "http://" + address + ":" + itoa(port))))
 //@ func GetURI
-//@   props C06 C11 C19
+//@   props C06 C11 C19 C10
+//@   ensures [the-uri-of-an-address] result == uriOf(address, port, enableTLS)
 //@   modifies nothing
